@@ -90,7 +90,7 @@ Proof.
   destruct (inos s !! i) as [f|] eqn:Ei; [|discriminate].
   cbn [inos idir wlog reads]. rewrite lookup_insert. cbn [fdata].
   intros [= <- <- <- <-]. exists i, f. cbn [idir inos wlog reads].
-  repeat split; try reflexivity. apply insert_insert.
+  split; [reflexivity|]. split; [exact Ei|]. repeat split; try reflexivity. apply insert_insert.
 Qed.
 
 (* the two ways openStagedOutput succeeds *)
@@ -145,23 +145,23 @@ Lemma api_i_spec rd inF outF b s0 s' :
 Proof.
   unfold api_i.
   destruct (match rd with Some x => _ | None => ROk None s0 end) as [fd s1|e s1] eqn:Erd; [|discriminate].
-  assert (Hrd : s1 = s0 /\ forall x, rd = Some x -> exists i fin, fd = Some i /\
+  assert (Hrd : s1 = s0 /\ (forall j, fd = Some j -> is_Some (inos s0 !! j)) /\
+                forall x, rd = Some x -> exists i fin, fd = Some i /\
                   resolve (idir s0) (sp_ent x) = Some i /\ inos s0 !! i = Some fin).
   { destruct rd as [x|].
     - unfold open_rd in Erd. destruct (resolve (idir s0) (sp_ent x)) as [i|] eqn:Er; [|discriminate].
       destruct (inos s0 !! i) as [fin|] eqn:Ei; [|discriminate]. injection Erd as <- <-.
-      split; [reflexivity|]. intros x' [= <-]. exists i, fin. repeat split; assumption.
-    - injection Erd as <- <-. split; [reflexivity|]. intros x' H. discriminate H. }
-  destruct Hrd as [-> Hfd]. clear Erd.
+      split; [reflexivity|]. split; [intros j [= <-]; eauto|].
+      intros x' [= <-]. exists i, fin. repeat split; assumption.
+    - injection Erd as <- <-. split; [reflexivity|]. split; [intros j H; discriminate H|].
+      intros x' H. discriminate H. }
+  destruct Hrd as (-> & Hfdex & Hfd). clear Erd.
   destruct (open_staged inF _ s0) as [[[ofd t] dest] s2|e s2] eqn:Eop; [|discriminate].
   apply open_staged_spec in Eop. destruct Eop as (d & Hd & Hop).
   (* the input descriptor is a pre-existing inode, the output descriptor a fresh one *)
   assert (Hne : ofd = fresh_ino (inos s0) -> fd <> Some ofd).
-  { intros -> ->. destruct rd as [x|].
-    - destruct (Hfd x eq_refl) as (i & fin & [= <-] & _ & Hi). rewrite Hfi in Hi. discriminate.
-    - destruct inF; destruct outF; cbn in *; try discriminate.
-      all: try (match goal with H : forall x, None = Some x -> _ |- _ => clear H end). all: idtac. }
-  assert (Hsnap : forall k snap0, snap0 = match fd with Some i => fdata <$> (inos s0 !! i) | None => None end ->
+  { intros -> Hfd'. destruct (Hfdex _ Hfd') as [x Hx]. rewrite Hfi in Hx. discriminate. }
+  assert (Hsnap : forall (k : nat) snap0, snap0 = match fd with Some i => fdata <$> (inos s0 !! i) | None => None end ->
             input_snap s0 rd snap0).
   { intros _ snap0 -> x Hx. destruct (Hfd x Hx) as (i & fin & -> & Hr & Hi).
     exists i, fin. split; [exact Hr|]. split; [exact Hi|]. rewrite Hi. reflexivity. }
@@ -293,8 +293,8 @@ Proof.
       destruct (resolve (idir s) (sp_ent x)) as [ii|] eqn:Ei; [|discriminate].
       destruct (inos s !! ii) as [fi|] eqn:Efi; [|discriminate].
       intros Heq. apply Pos.eqb_eq in Heq. subst ii. right. exists io, fi, fo. repeat split; assumption.
-    + intros [He|(i & fi & fo & Hx & Ho & Hfi & Hfo)]; [contradiction|].
-      rewrite Ho, Hfo, Hx, Hfi. apply Pos.eqb_refl.
+    + intros [He|(i & fi & fo & Hx & Ho & Hli & Hlo)]; [contradiction|].
+      rewrite Ho, Hlo, Hx, Hli. apply Pos.eqb_refl.
 Qed.
 
 (* CopyFile onto another name of the same file does nothing *)
